@@ -3,8 +3,8 @@ import Wl2kVerif.Proofs.PairTurn
 /-
 The frame reader on ANY PREFIX of a well-formed frame (link cut anywhere inside it): whenever
 `readCompressed` returns a payload at all, it is the payload that was sent, and what is left unread is a
-prefix of what followed the frame. (A cut right before the final checksum byte can still be accepted
-when the data sum happens to be 0 mod 256 — the missing byte reads as 0; the payload is complete then.)
+prefix of what followed the frame. (A cut right before the final checksum byte is a read error — the
+connection is lost — like every other cut.)
 -/
 namespace Wl2k.B2F
 open Wl2k Wl2k.Strconv
@@ -63,14 +63,8 @@ theorem readBlocks_prefix_ok (csize : Int) : ∀ (chunks : List Bytes) (fuel : N
       rcases List.prefix_cons_iff.mp hJ with rfl | ⟨t, rfl, ht⟩
       · simp [readBlocks, Proc.run] at hr
       · rcases List.prefix_cons_iff.mp ht with rfl | ⟨t2, rfl, ht2⟩
-        · simp only [readBlocks, Proc.run, h42, if_false, if_true] at hr
-          split at hr
-          · simp [Proc.run] at hr
-          · split at hr
-            · simp [Proc.run] at hr
-            · simp only [Proc.run, Prod.mk.injEq, Ended.done.injEq, Except.ok.injEq] at hr
-              obtain ⟨rfl, rfl, _, _⟩ := hr
-              exact ⟨by simp, List.nil_prefix⟩
+        · -- cut between EOT and the checksum byte: the read error is returned
+          simp [readBlocks, Proc.run, h42] at hr
         · simp only [readBlocks, Proc.run, h42, if_false, if_true] at hr
           split at hr
           · simp [Proc.run] at hr
